@@ -37,6 +37,7 @@ What makes a change useful:
 * It has to break THIS property (say which clause), not merely some other behaviour.
 * Do not repeat ideas already used for this property:
 {chr(10).join(used) if used else '- (none yet)'}
+  {os.environ.get('STEER','')}
   Look for mechanisms and files those do not touch (there are 20+ protocol packages, internal/core, five transports incl. ipc/tlstcp/ws, the message pool, macat, the compat and test-support code is out of scope).
 
 For each change also write a DEMONSTRATION: a Go test file (name it zz_demo_{la}_test.go / zz_demo_{lb}_test.go, in the package directory where it fits; it may use the library's internal/test helpers and mock transport) that FAILS with your change and PASSES reliably (every run) on the unchanged code. Make it deterministic where you can (mock peers, hooks, injected faults, GOMAXPROCS, bounded retries) and bounded in time (under 60 s).
